@@ -247,7 +247,7 @@ def judgeSearch (args : List String) : String :=
       let cls := if cl.isEmpty then "-" else ",".intercalate cl
       match model c with
       | .badCharset => "ok trivial badcharset"
-      | .panic => s!"violation spec-mismatch classes=charset-unsupported-panic model=panic spec={showNums spec}"
+      | .panic => s!"violation spec-mismatch classes=panic model=panic spec={showNums spec}"
       | .no =>
         if cl.contains "decode-error" then "ok trivial decode-error"
         else s!"violation spec-mismatch classes={cls} model=no spec={showNums spec}"
